@@ -88,7 +88,9 @@ proof {
     "Zone::resolve": {"props": ["C02"], "depub": True, "rewrites": [R16],
         "contract": """    requires name.wf(), zone_wf(*self),
     ensures r is Some <==> is_suffix(self.apex.labels@, name.labels@),
-        r is Some ==> lookup_ok(r->Some_0, self.records, *name, qtype, rel_labels(*name, self.apex), true), // [C02:lookup_algorithm_at_apex]"""},
+        r is Some ==> lookup_ok(r->Some_0, self.records, *name, qtype, rel_labels(*name, self.apex), true), // [C02:lookup_algorithm_at_apex]
+        r is Some ==> owners_ok(r->Some_0, *name), // [C02,C10:answer_records_owned_by_the_query_name]""",
+        "entry": "broadcast use lemma_result_owners;"},
 }
 
 SPEC2 = """
@@ -123,6 +125,7 @@ def build(G):
     G.file(os.path.join(PRELUDE, "wire_spec.rs"))
     zone_types(G, with_zones=False)
     G.file(os.path.join(PRELUDE, "hash.rs"))
+    G.raw(OWNERS_OK_RS, ("spec", "owners_ok"))
     G.file(os.path.join(VERIF, "units", "zone_lookup.spec.rs"))
     G.raw(SPEC2, ("spec", "zone_lookup spec2"))
     T, Z = G.src(TYPES), G.src(ZTYPES)
